@@ -1,7 +1,7 @@
 (* Property C01 — point membership (point-in-polygon/rect/line) is exact.
    Only statements, each closed by the lemma that proves it. *)
 From Coq Require Import Sorting.Permutation.
-From GJ Require Import Base Kernel KernelSpec Series SeriesSpec Ring RingSpec PipProofs.
+From GJ Require Import Base Kernel KernelSpec Series SeriesSpec Ring RingSpec PipProofs Jordan Crossing MirrorY.
 
 (* ring: on the boundary -> allowOnEdge, else crossing parity; any vertex
    sequence, closed or not, repeated vertices, self-intersecting *)
@@ -39,7 +39,22 @@ Theorem C01_parity_reading : forall sgs p,
   parityb sgs p = Nat.odd (length (filter (fun s => crossesb s p) sgs)).
 Proof. exact parityb_odd. Qed.
 
+(* the crossing parity does not depend on the direction of the ray: along any non-horizontal
+   segment with both ends off the boundary, the two ends' parities differ by the parity of the
+   edges crossing the segment (half-open rule along it); with the far end outside the ring this
+   is the parity counted by a ray in that direction *)
+Theorem C01_ray_direction_independent : forall ps L H, py L < py H ->
+  on_boundaryb (ring_edges ps) L = false -> on_boundaryb (ring_edges ps) H = false ->
+  xorb (parityb (ring_edges ps) L) (parityb (ring_edges ps) H) = xfold (Xc L H) (ring_edges ps).
+Proof. exact crossing_parity. Qed.
+(* e.g. a ray upwards (the transposed ring and point) decides the same membership *)
+Theorem C01_upward_ray : forall ps p,
+  in_ringb (ring_edges (map tr ps)) (tr p) = in_ringb (ring_edges ps) p.
+Proof. exact in_ringb_tr. Qed.
+
 Print Assumptions C01_ring.
+Print Assumptions C01_ray_direction_independent.
+Print Assumptions C01_upward_ray.
 Print Assumptions C01_polygon.
 Print Assumptions C01_rect.
 Print Assumptions C01_line.
